@@ -72,7 +72,8 @@ func c15KeyLess(a, b [2]uint64) bool {
 }
 
 func c15Host(hp string) string {
-	if i := strings.IndexByte(hp, ':'); i >= 0 {
+	// the port follows the LAST ':' ("[::1]:80" is on host "[::1]")
+	if i := strings.LastIndexByte(hp, ':'); i >= 0 {
 		return hp[:i]
 	}
 	return hp
@@ -97,7 +98,8 @@ type c15Case struct {
 	logging bool
 	order   []string
 	o       *Out
-	dead    bool // an operation of the implementation panicked; the rest of the history is skipped
+	rng     *rand.Rand // when set, load changes spread the pending calls at random over the connections
+	dead    bool       // an operation of the implementation panicked; the rest of the history is skipped
 }
 
 // recoverOp is deferred by every operation: a panic of the library is an observation (99) and a verdict.
@@ -413,7 +415,48 @@ func (cs *c15Case) opSetLoad(hp string, a c15Load) {
 	}
 	p := cs.ch.RootPeers().GetOrAdd(hp)
 	cs.load[hp] = a
-	tchannel.VerifSetPeerLoad(p, a.in, a.out, a.pend)
+	// the pending calls are spread over the inert connections of BOTH directions (all of them on
+	// connections the peer dialled in every third case); every connection also carries 0..3
+	// calls of the peer's own (inbound exchanges), which are not load
+	in, out := make([]tchannel.VerifConnLoad, a.in), make([]tchannel.VerifConnLoad, a.out)
+	onInbound, theirs := 0, 0
+	if cs.rng != nil && a.in+a.out > 0 {
+		mode := cs.rng.Intn(3)
+		for i := 0; i < a.pend; i++ {
+			k := cs.rng.Intn(a.in + a.out)
+			if mode == 0 && a.in > 0 {
+				k = cs.rng.Intn(a.in)
+			}
+			if k < a.in {
+				in[k].Out++
+				onInbound++
+			} else {
+				out[k-a.in].Out++
+			}
+		}
+		for i := range in {
+			in[i].In = cs.rng.Intn(4)
+			theirs += in[i].In
+		}
+		for i := range out {
+			out[i].In = cs.rng.Intn(4)
+			theirs += out[i].In
+		}
+		tchannel.VerifSetPeerConns(p, in, out)
+	} else {
+		tchannel.VerifSetPeerLoad(p, a.in, a.out, a.pend)
+	}
+	if a.in+a.out > 0 {
+		if got := p.NumPendingOutbound(); got != a.pend {
+			cs.fail("NumPendingOutbound(%q) = %d but %d of our calls are pending to it (%d of them over connections the peer dialled; the peer has %d calls of its own in flight to us)", hp, got, a.pend, onInbound, theirs)
+		}
+	}
+	if gi, go_ := p.NumConnections(); gi != a.in || go_ != a.out {
+		cs.fail("NumConnections(%q) = (%d, %d), the peer has %d inbound and %d outbound connections", hp, gi, go_, a.in, a.out)
+	}
+	if onInbound > 0 {
+		cs.o.Hist("load-on-inbound-conns")
+	}
 	tchannel.VerifChannelUpdatePeer(cs.ch, p)
 	used := 0
 	for _, l := range cs.lists {
@@ -653,6 +696,7 @@ func enginePeers(rng *rand.Rand, n int, tier string, o *Out) {
 		case kind <= 6: // mixed histories
 			niso := rng.Intn(3)
 			cs := newC15Case(fmt.Sprintf("c15-m%d", c), niso, o)
+			cs.rng = rng
 			pool := mkPool(3 + rng.Intn(10))
 			nops := 10 + rng.Intn(40)
 			if tier != "quick" {
@@ -746,6 +790,7 @@ func enginePeers(rng *rand.Rand, n int, tier string, o *Out) {
 
 		default: // boundary / hostile
 			cs := newC15Case(fmt.Sprintf("c15-b%d", c), 1, o)
+			cs.rng = rng
 			pool := mkPool(4)
 			cs.opGet(0, false, nil, raw())              // empty list
 			cs.opGet(1, true, []string{pool[0]}, raw()) // empty list, GetNew
